@@ -42,6 +42,9 @@ CHECKS = {
  'C13': dict(level='exploration', technique='runtime monitor over fork histories of InteractiveParser handles: per-handle result vs parse() of its own text, re-canonicalisation of earlier results after every later operation, accepts() vs trial feeds and reference automaton, resume_parse vs manual feed / blanked text',
              text='Random fork trees (copy, copy.copy, as_immutable, as_mutable, immutable feed_token; forks after every prefix; diverging continuations; accepts()/choices() interleaved; random finishing order) on generated LALR grammars with inlined left-recursive lists, ?-rules, placeholders, propagate_positions and an embedded list-returning transformer. Every handle must end with exactly the parse() result of its own token sequence and no earlier result may change afterwards.',
              note='Expected values come from Lark.parse itself (judged by C02/C03). resume == parse of the blanked text only when the parser had not reduced on the bad lookahead; otherwise == manual feeding from a fork of the same state.', ref='4 C13'),
+ 'C14': dict(level='exploration', technique='differential runtime monitor: scan() vs a leftmost-longest emulation built from public parse()/parse_interactive() calls on TextSlice windows; metamorphic bytes/window variants',
+             text='For every generated text (sentences, near misses and junk with hostile joints) scan() must return exactly the list of (start, end, value) that an O(n^2) emulation finds by trying every start offset and every in-context token end with the real parse(); values include all token coordinates and meta in full-text coordinates; matches must be ordered, disjoint, bounded by their own first/last token, and invariant under bytes input and under embedding in a larger buffer.',
+             note='A snippet counts as parseable from p only if its tokens are a prefix of the in-context token stream from p (scan lexes in context). Text length <= 40.', ref='4 C14'),
  'C15': dict(level='exploration', technique='metamorphic runtime monitor: str vs bytes vs TextSlice windows of hostile buffers, canonical outcomes compared after the coordinate shift the statement prescribes',
              text='Every generated text (accepted and rejected, with newlines in kept/ignored/filtered terminals) is parsed as str, as bytes with use_bytes=True, as a complete TextSlice and as windows of larger buffers whose neighbours would extend the first/last token or put the window mid-line; trees with all token coordinates and meta, and exception class/position, must agree after shifting by the window start.',
              note='ASCII only. Context-sensitive regexps (\\b, look-behind, ^, $) are a separate class judged against finding F-C15-1; dynamic lexers refuse slices (documented).', ref='4 C15'),
